@@ -704,6 +704,18 @@ func runC09(o *Out, r *rand.Rand) {
 		ct := []protocol.CompressType{protocol.None, protocol.Gzip, protocol.Gzip}[r.Intn(3)]
 		conc := []int{2, 4, 8, 16, 32}[r.Intn(5)]
 		shared := r.Intn(2) == 0
+		// every third round: replies well above 64 KiB to concurrent callers multiplexed on ONE connection
+		// (several big response frames written back to back on the same conn)
+		big := round%3 == 2
+		if big {
+			shared = true
+			if conc < 8 {
+				conc = 8
+			}
+			if r.Intn(2) == 0 {
+				ct = protocol.None
+			}
+		}
 		var sharedCl *client.Client
 		if shared {
 			sharedCl, err = connect(sv.network, sv.addr, ci, ct)
@@ -739,6 +751,10 @@ func runC09(o *Out, r *rand.Rand) {
 						return
 					}
 					c := &c09Call{ci: ci, ct: ct, argSize: sizes[lr.Intn(6)], replySize: sizes[lr.Intn(6)], meta: genMeta(lr)}
+					if big {
+						c.replySize = []int{65536, 70000, 150000, 262144}[lr.Intn(4)]
+						o.Count("concurrent.big-replies")
+					}
 					if !c09DoCall(o, rig, cl, sv.network, c, conc) {
 						atomic.StoreInt32(&failed, 1)
 						return
